@@ -204,3 +204,22 @@ PROPS['C19'] = {
     'assumptions': ['identical bits <=> Equal follows from the unique-member characterisation proved here plus C04 (Equal agrees with the exact order)'],
     'validate_per_harness': 4,
 }
+
+
+# ---------------------------------------------------------------- C02
+def c02_jobs(tier, seed):
+    jobs = [('vh_c02_mul', [], CUT),
+            ('vh_c02_default', [], {'cuts': ['MulWithMode', 'QuoWithMode']})]
+    jobs += r_jobs([128, 256], tier, seed, sample=4)
+    return jobs
+
+
+PROPS['C02'] = {
+    'jobs': c02_jobs,
+    'must_reach': ['C02:mul', 'C02:mulzero', 'C02:default', 'R:finite', 'R:flush', 'R:overflow'],
+    'bounds': {'quick': 'MulWithMode: both full 128-bit finite patterns, mode symbolic: the exact 226-bit product reaches reduce128/reduce256 with the summed exponent, XOR sign and no sticky; zero products; Mul/Quo == WithMode(DefaultRoundingMode) for every DefaultRoundingMode. Kernel contracts reduce128 (all classes) and reduce256 (classes 0,1,44 + seeded) incl. subnormal, flush and overflow regions (sampled depths).',
+               'thorough': 'same, with every reduce256 class 0..44 and every subnormal depth / overflow excess.'},
+    'outside': 'QuoWithMode digit-generation loops (quotient digits beyond the first division) are NOT covered by this check: their trip count depends on the operands and the one-step induction planned in DESIGN.md §1.5 is not built; Quo special operands are covered under C15.',
+    'assumptions': ['assume-guarantee at the rounding kernel (contract R, precondition P proved at the call sites)'],
+    'validate_per_harness': 6,
+}
